@@ -498,7 +498,10 @@ func (k *c21Case) run(prevotes, precommitsGen func() []*c21Delivery, ownPrevote 
 	pvb, err := svc.getPreVotedBlock()
 	c.Eval(1)
 	if err != nil {
-		if len(S) > 0 {
+		if ambiguous {
+			// more than f equivocators (e.g. only equivocators and no countable vote): outside the equality oracle
+			c.Count("ambiguous_ghost_error", 1)
+		} else if len(S) > 0 {
 			c.Violation("ghost-error", "getPreVotedBlock failed although a block has > 2/3 prevotes: "+err.Error(),
 				k.witness(map[string]any{"qualifying": S}))
 		} else {
@@ -584,6 +587,11 @@ func (k *c21Case) run(prevotes, precommitsGen func() []*c21Delivery, ownPrevote 
 		if !voted {
 			c.Count("ghost_not_directly_voted", 1)
 		}
+	case ambiguous && ghost >= 0 && ghostVote.Number == uint32(k.tree.Number[ghost]) && k.ref.supermajority(0, ghost) && //nolint:gosec
+		k.tree.IsAncestorOrEqual(k.head, ghost):
+		// more than f equivocators: the equivocators' weight alone can give unvoted blocks a supermajority and the
+		// GHOST is not unique; the answer is only required to be a qualifying block (excluded from the equality oracle)
+		c.Count("ghost_ambiguous_qualifying_not_maximal", 1)
 	case ghost >= 0 && ghostVote.Number == uint32(k.tree.Number[ghost]) && k.ref.supermajority(0, ghost) && //nolint:gosec
 		k.tree.IsAncestorOrEqual(k.head, ghost) && k.ref.junction(0, ghost) && c21BelowSome(k.tree, ghost, maxS):
 		// the answer has a supermajority and is a directly voted block or a common ancestor of two voted blocks,
@@ -610,11 +618,11 @@ func (k *c21Case) run(prevotes, precommitsGen func() []*c21Delivery, ownPrevote 
 	if k.cap != nil && k.tree.IsAncestorOrEqual(k.cap.Announce, ghost) && k.cap.Eff <= k.tree.Number[ghost] {
 		c.Count("precommit_cap_applies", 1)
 	}
-	if *pc != k.tree.Vote(want) && len(maxS) > 1 {
-		// more than f equivocators: several maximal blocks, the service breaks the tie by map order, so the
-		// second evaluation inside determinePreCommit may have picked another one
+	if *pc != k.tree.Vote(want) && ambiguous {
+		// more than f equivocators: several candidate blocks, the service breaks ties by map order, so the
+		// second evaluation inside determinePreCommit may have picked another qualifying block
 		for _, g := range S {
-			if *pc == k.tree.Vote(capOf(g)) && (k.ref.junction(0, g) || c21In(maxS, g)) {
+			if *pc == k.tree.Vote(capOf(g)) {
 				c.Count("precommit_ambiguous_tie", 1)
 				want = capOf(g)
 			}
